@@ -5,7 +5,7 @@
    theorems quantify over all segmentations, with no bound on stream length or chunk count. *)
 From OlaBase Require Import Bytes.
 From C10 Require Import Gen Model Lemmas ProofsRecv ProofsUsb ProofsRobe ProofsOpc ProofsAcn ProofsAcnRef Schedule ProofsSched ProofsSchedOpc ProofsOpcFast ProofsOpcReg ProofsRpc
-  ProofsRobeResync ProofsRobeDispatch ProofsAcnRoot ProofsInter.
+  ProofsRobeResync ProofsRobeDispatch ProofsAcnRoot ProofsInter ProofsEnttec.
 Local Open Scope N_scope.
 
 (* Side obligations: the constants regenerated from the headers are the numbers used by the
@@ -21,7 +21,10 @@ Theorem c10_consts :
     (15 * 2 ^ 28, 2 ^ 28 - 1, 1, 2 ^ 20) /\
   (ACN_VFLAG_MASK, ACN_HFLAG_MASK, ACN_CID_LENGTH, ACN_ROOT_VECTOR_SIZE, ACN_VECTOR_ROOT_NULL) =
     (64, 32, 16, 4, 6) /\
-  ROBE_DISPATCH = [(17, 1); (19, 2); (5, 3)].
+  ROBE_DISPATCH = [(17, 1); (19, 2); (5, 3)] /\
+  ENTTEC_DISPATCH = [(3, (1, 1)); (12, (1, 2)); (5, (1, 3)); (9, (1, 4));
+                     (137, (2, 1)); (201, (2, 2)); (156, (2, 3)); (164, (2, 4))] /\
+  (ENTTEC_PORT2_THRESHOLD, ENTTEC_PORT_ASSIGNMENT_LABEL) = (128, 141).
 Proof. repeat split; reflexivity. Qed.
 Print Assumptions c10_consts.
 
@@ -122,6 +125,39 @@ Proof.
   intros l pl a buf b Hl. exact (robe_dispatch_skip l pl Hl a buf b).
 Qed.
 Print Assumptions c10_robe_dispatch.
+
+(* c10_receive quantifies over every script of read() results, EINTR and EAGAIN anywhere included
+   (kernel_blocks skips an EINTR and stops at an EAGAIN).  Spelled out: an EINTR at any position
+   changes nothing — same return value, count, buffer, bytes consumed as without it (the read is
+   retried, neither cursor nor count move); an EAGAIN ends the call with exactly what the successful
+   reads before it stored, whatever would have come after. *)
+Theorem c10_receive_interrupted : forall a b src buf,
+  receive_call (a ++ RIntr :: b) src buf = receive_call (a ++ b) src buf /\
+  receive_call (a ++ RAgain :: b) src buf = receive_call a src buf.
+Proof.
+  intros a b src buf. unfold receive_call. split.
+  - exact (receive_eintr_anywhere a b src (len buf) 0 0 buf).
+  - exact (receive_eagain_stops a b src (len buf) 0 0 buf).
+Qed.
+Print Assumptions c10_receive_interrupted.
+
+(* The Enttec USB Pro widget on top of the framer: EnttecUsbProWidgetImpl::HandleMessage/HandleLabel
+   route every delivered frame by its label to (port, handler) — table ENTTEC_DISPATCH, threshold and
+   port-assignment label regenerated from the source — on a single- or dual-port widget.  Under every
+   partition the routed frames are those of the reference framer's frames, in order, and a frame
+   whose label is in neither label set is dropped without affecting any other.  (Theorem over the
+   framer model and the regenerated table; the Enttec widget itself is not in the correspondence.) *)
+Theorem c10_enttec_dispatch : forall (dual : bool) (stream : list N) (chunks : list (list N)),
+  concat chunks = stream ->
+  (exists s out, feed u_recv u_init chunks = Done s out /\
+                 enttec_dispatch dual out = enttec_dispatch dual (ref_usb stream)) /\
+  (forall a m b, snd (enttec_route dual (fst m)) = 0 ->
+     enttec_dispatch dual (a ++ m :: b) = enttec_dispatch dual (a ++ b)).
+Proof.
+  intros dual stream chunks H. rewrite <- H. split; [exact (enttec_dispatch_chunk_free dual chunks)|].
+  intros a m b Hm. exact (enttec_dispatch_skip dual a m b Hm).
+Qed.
+Print Assumptions c10_enttec_dispatch.
 
 (* Open Pixel Control (SocketReady after fix 02): for every stream of bytes (< 256) and every
    partition, the channel callbacks receive exactly the frames of the whole stream, in order — so
@@ -376,3 +412,13 @@ Example c10_instances_example :
   Some [({| u_st := U_PRE; u_label := 6; u_lo := 2; u_hi := 0; u_body := [1; 2] |}, [(6, [1; 2])]);
         ({| u_st := U_PRE; u_label := 5; u_lo := 4; u_hi := 0; u_body := [9; 8; 7; 6] |}, [(5, [9; 8; 7; 6])])].
 Proof. vm_compute. reflexivity. Qed.
+Example c10_receive_interrupted_example :
+  receive_call [RIntr; RBytes 2; RIntr; RIntr; RBytes 1; RAgain; RBytes 9] [1; 2; 3; 4; 5] [9; 9; 9; 9] =
+    RDone 0 3 [1; 2; 3; 9] [4; 5] /\
+  receive_call [RBytes 2; RBytes 1] [1; 2; 3; 4; 5] [9; 9; 9; 9] = RDone 0 3 [1; 2; 3; 9] [4; 5].
+Proof. split; vm_compute; reflexivity. Qed.
+Example c10_enttec_dispatch_example :
+  enttec_dispatch true [(5, [1]); (156, [2]); (200, [3]); (141, [1; 1]); (77, [])] =
+    [((1, 3), (5, [1])); ((2, 3), (156, [2])); ((0, 5), (141, [1; 1]))] /\
+  enttec_dispatch false [(156, [2]); (9, [7])] = [((1, 4), (9, [7]))].
+Proof. split; vm_compute; reflexivity. Qed.
